@@ -134,3 +134,6 @@ reg("C08", "checks.cuts", dict(quick=260, thorough=6000), dict(quick=55, thoroug
 reg("C14", "checks.history", dict(quick=1500, thorough=30000), dict(quick=55, thorough=900), "exploration",
     HISTORY_RULE + "; the last operation is executed three times from the same store snapshot: as a dry run, as the "
     "real run, and as an execution of the physical plan the dry run returned (no registry), all under the simulator")
+
+reg("C16", "checks.engine", dict(quick=2600, thorough=60000), dict(quick=55, thorough=900), "exploration", ENGINE_RULE
+    + "; weak references to every call result are checked at every call start and every 'completed' notification")
